@@ -469,3 +469,50 @@ func GoodAEADNonceSize(aead cipher.AEAD, nonce, msg []byte) ([]byte, error) {
 	}
 	return aead.Seal(nil, nonce, msg, nil), nil
 }
+
+// ---- N6 input progress
+
+func takeOne(b []byte) (byte, []byte, error) {
+	if len(b) == 0 {
+		return 0, nil, nil
+	}
+	return b[0], b[1:], nil
+}
+
+func GoodLoopRest(b []byte) int {
+	n := 0
+	for len(b) > 0 {
+		var c byte
+		var err error
+		c, b, err = takeOne(b)
+		if err != nil {
+			return -1
+		}
+		n += int(c)
+	}
+	return n
+}
+
+func skipSpace(b []byte) (*int, []byte, error) {
+	if b[0] == ' ' {
+		return nil, b, nil // hands the input back unchanged
+	}
+	v := int(b[0])
+	return &v, b[1:], nil
+}
+
+func BadLoopSameInput(b []byte) int {
+	n := 0
+	for len(b) > 0 {
+		var v *int
+		var err error
+		v, b, err = skipSpace(b)
+		if err != nil {
+			return -1
+		}
+		if v != nil {
+			n += *v
+		}
+	}
+	return n
+}
